@@ -73,6 +73,22 @@ ScheduledOk(t, ex, a, rw) ==
      IF rw[j].seq < 0 THEN rw[j].eps = -1 /\ rw[j].dseq = -1 /\ rw[j].h = 0
      ELSE (rw[j].seq \in DOMAIN ex[a]) => (rw[j].dseq = rw[j].seq /\ rw[j].h = ex[a][rw[j].seq].h_out /\ rw[j].eps = t.eps)
 
+(* C10: a connection with a trainable zero-order-hold delay.  The schedule hands over a window extended by Ext entries computed for the   *)
+(* minimal delay; TrainableDist.apply_delay re-stamps the receive times with the current delay d, locates the first entry that has not  *)
+(* arrived by the step's start and takes the W entries before it (lax.dynamic_slice: a negative start counts from the end, then is      *)
+(* clamped into range).  t.train[k][a] = [d, W] when kind k's input from a is trainable.                                                *)
+ZohApply(ext, d, ts, W) ==
+  LET n == Len(ext)
+      recv(j) == IF ext[j].seq < 0 THEN ext[j].recv ELSE ext[j].sent + d
+      later == {j \in 1..n : recv(j) > ts}
+      idxmax == IF later = {} THEN n + 1 ELSE CHOOSE j \in later : \A i \in later : j <= i
+      idxmin == idxmax - W
+      s0 == IF idxmin < 1 THEN idxmin + n ELSE idxmin
+      start == IF s0 < 1 THEN 1 ELSE IF s0 > n - W + 1 THEN n - W + 1 ELSE s0
+  IN [j \in 1..W |-> [ext[start + j - 1] EXCEPT !.recv = recv(start + j - 1)]]
+IsTrain(t, k, a) == "train" \in DOMAIN t /\ k \in DOMAIN t.train /\ a \in DOMAIN t.train[k]
+Seen(t, k, a, rw, ts) == IF IsTrain(t, k, a) /\ Len(rw) > t.train[k][a].W THEN ZohApply(rw, t.train[k][a].d, ts, t.train[k][a].W) ELSE rw
+
 NormLogWin(w) == [j \in 1..Len(w) |-> IF w[j].seq < 0 THEN [w[j] EXCEPT !.seq = -1] ELSE w[j]]
 
 (* ---- one slot against one log entry ------------------------------------- *)
@@ -80,7 +96,7 @@ NormLogWin(w) == [j \in 1..Len(w) |-> IF w[j].seq < 0 THEN [w[j] EXCEPT !.seq = 
 SlotErr(t, st, s, e, at) ==
   LET k == s.kind
       ins == DOMAIN s.wins
-      rw == [a \in ins |-> ReadWin(t, st.ring, a, s.wins[a])]
+      rw == [a \in ins |-> Seen(t, k, a, ReadWin(t, st.ring, a, s.wins[a]), s.start)]
       lw == [a \in ins |-> NormLogWin(e.wins[a])]
       hn == NextH(t, k, s.seq, st.hcur[k], rw)
       base == <<
@@ -163,7 +179,7 @@ DoRU ==
      ELSE IF ms.err # NoErr
      THEN err' = ms.err /\ UNCHANGED <<tid, opi, step, hcur, nexec, ring, supss, exec, lp, fin>>
      ELSE /\ hcur' = ms.st.hcur /\ nexec' = ms.st.nexec /\ ring' = ms.st.ring /\ exec' = ms.st.exec /\ lp' = ms.lp
-          /\ supss' = [seq |-> sup.seq, start |-> sup.start, wins |-> [a \in DOMAIN sup.wins |-> ReadWin(T, ms.st.ring, a, sup.wins[a])]]
+          /\ supss' = [seq |-> sup.seq, start |-> sup.start, wins |-> [a \in DOMAIN sup.wins |-> Seen(T, T.sup, a, ReadWin(T, ms.st.ring, a, sup.wins[a]), sup.start)]]
           /\ step' = s + 1
           /\ opi' = opi + 1
           /\ UNCHANGED <<tid, err, fin>>
